@@ -16,6 +16,7 @@ import (
 	"os"
 	"runtime"
 	"sort"
+	"sync"
 	"syscall"
 	"unsafe"
 )
@@ -258,6 +259,10 @@ func Setup(c Config) {
 	}
 	s.lowPrio = -1
 	s.cur = c.First
+	for i := range condTab {
+		condTab[i] = condRec{}
+	}
+	condN = 0
 }
 
 func Teardown() {
@@ -404,6 +409,82 @@ func switchTo(me, nx, site int32) {
 	s.cur = nx
 	release(nx)
 	park(me)
+}
+
+// ---- sync.Cond ----
+//
+// A task that really blocked in Cond.Wait would wait for a peer the simulator
+// has parked: nothing would ever move. The instrumenter therefore routes the
+// three methods of sync.Cond here. Wait is executed as what it means: release
+// the lock, let other tasks run, take the lock again - and return only once a
+// Signal or Broadcast on this Cond has been seen since the wait began (a
+// Signal wakes every simulated waiter, not one: the others re-check their
+// predicate, as the documentation of sync.Cond tells callers to). If nobody
+// else can run, the real Wait is called: the library waits for a wake-up
+// that no caller will send, and the watchdog ends the run (exit 2).
+
+type condRec struct {
+	c   *sync.Cond
+	gen uint64
+}
+
+var condTab [64]condRec
+var condN int
+
+//go:norace
+func condGen(c *sync.Cond) *uint64 {
+	for i := 0; i < condN; i++ {
+		if condTab[i].c == c {
+			return &condTab[i].gen
+		}
+	}
+	if condN < len(condTab) {
+		condTab[condN] = condRec{c: c}
+		condN++
+		return &condTab[condN-1].gen
+	}
+	// table full: share a counter (more wake-ups, never fewer)
+	return &condTab[0].gen
+}
+
+//go:norace
+func CondBroadcast(c *sync.Cond) {
+	if s.active {
+		*condGen(c)++
+	}
+	c.Broadcast()
+}
+
+//go:norace
+func CondSignal(c *sync.Cond) {
+	if s.active {
+		*condGen(c)++
+	}
+	c.Signal()
+}
+
+//go:norace
+func CondWait(c *sync.Cond) {
+	if !s.active {
+		c.Wait()
+		return
+	}
+	g := condGen(c)
+	g0 := *g
+	for *g == g0 {
+		me := s.cur
+		nx := pickOther(me)
+		if nx < 0 {
+			c.Wait() // nobody left who could wake us
+			return
+		}
+		c.L.Unlock()
+		s.noPreempt[me]--
+		s.step++
+		switchTo(me, nx, -5)
+		s.noPreempt[me]++
+		c.L.Lock()
+	}
 }
 
 //go:norace
